@@ -232,11 +232,11 @@ pub trait QueryBuilder:
 
         self.prepare_update_condition(&update.from, &update.r#where, sql);
 
+        self.prepare_returning(&update.returning, sql);
+
         self.prepare_update_order_by(update, sql);
 
         self.prepare_update_limit(update, sql);
-
-        self.prepare_returning(&update.returning, sql);
     }
 
     fn prepare_update_join(&self, _: &[TableRef], _: &ConditionHolder, _: &mut dyn SqlWriter) {
@@ -319,11 +319,11 @@ pub trait QueryBuilder:
 
         self.prepare_condition(&delete.r#where, "WHERE", sql);
 
+        self.prepare_returning(&delete.returning, sql);
+
         self.prepare_delete_order_by(delete, sql);
 
         self.prepare_delete_limit(delete, sql);
-
-        self.prepare_returning(&delete.returning, sql);
     }
 
     /// Translate ORDER BY expression in [`DeleteStatement`].
